@@ -761,3 +761,9 @@ add("C02", "global-removed-outside-functions", "core_codemods/remove_module_glob
 add("C20", "converter-looks-up-enum-by-name", CLI,
     [("        type=OutputFormat,\n", "        type=lambda v: OutputFormat[v.upper()],\n")],
     "fire", "R-ARG-CONVERTERS", "parse_args")
+add("C14", "failed-notice-suppressed-by-extra-condition", CTXF,
+    [("            else:\n                description += build_failed_dependency_notification(dependencies[0])", "            elif not self.dry_run:\n                description += build_failed_dependency_notification(dependencies[0])")],
+    "fire", "R-FAILED-NOTICE", "add_description")
+add("C14", "manifest-read-with-error-handler", REQW,
+    [("            with open(self.path, \"r\", encoding=\"utf-8\") as f:", "            with open(self.path, \"r\", encoding=\"utf-8\", errors=\"replace\") as f:")],
+    "fire", "R-STRICT-DECODE", "RequirementsTxtWriter")
